@@ -310,6 +310,12 @@ SimCore ==
     \/ \E w \in Rep(60) : RoleStep
 NextSim == SimCore \/ (\E w \in Rep(12) : SessStep)                 \* C39: with SET ROLE steps
 NextSimReload == SimCore \/ (\E w \in Rep(60) : PersistReload)       \* C41: with Persist/Reload steps
+\* account-name exactness (vocabulary with the same user name at two hosts, e.g. "u1" = u1@localhost and
+\* "u1@%"): statements naming an account act on exactly that account or fail
+NextSimExact == (\E w \in Rep(4) : AcctStep)
+                \/ (\E w \in Rep(3) : \E x \in Accts, o \in Objs : \E ps \in PrivSets(o) : GrantPriv(x, o, ps))
+                \/ (\E w \in Rep(3) : UsefulRevoke) \/ NoopRevoke
+                \/ (\E w \in Rep(4) : RoleStep)
 NextSimAll == SimCore \/ (\E w \in Rep(12) : SessStep) \/ (\E w \in Rep(60) : PersistReload)
 
 Spec == Init /\ [][Next]_vars
